@@ -349,11 +349,93 @@ fn forge_replicate(row: &J, idx: u64) -> Res {
     Ok(())
 }
 
+/// The same forgery against the encrypted-transfer relation: a transcript for the statement WITHOUT the upper chunk of the remaining balance (true as stated:
+/// S decrypts to the amount chunks plus the lower remaining chunk), hashed as the full statement whose upper remaining chunk encrypts an unrelated non-zero
+/// value (the full statement is false).  Offered as is (responses (2, 1)) and with the first response vector padded so that the TOTAL number of chunk
+/// responses matches the statement (responses (3, 1) against chunks (2, 2)).
+fn forge_enc_trans(row: &J, idx: u64) -> Res {
+    use concordium_base::{
+        encrypted_transfers::proofs::gen_enc_trans_proof_info,
+        sigma_protocols::enc_trans::{EncTrans, EncTransSecret},
+    };
+    let legacy = idx % 2 == 0;
+    let mut rng = StdRng::seed_from_u64(idx);
+    let g = pt(1);
+    let h = pt(2);
+    let sk_r = elgamal::SecretKey::<G>::generate(&g, &mut StdRng::seed_from_u64(71));
+    let pk_r = elgamal::PublicKey::from(&sk_r);
+    let w: Vec<Fr> = (0..9).map(|i| scalar("rand", 11000 * idx + i)).collect();
+    let sk = if w[0].is_zero() { Fr::one() } else { w[0] };
+    let pk_s = elgamal::PublicKey { generator: g, key: g.mul_by_scalar(&sk) };
+    let a = [G::scalar_from_u64(4_999_999_000 & 0xffff_ffff), G::scalar_from_u64(4_999_999_000 >> 32)];
+    let sp = [G::scalar_from_u64(1123), G::scalar_from_u64(1_000_000)];
+    let enc = |pk: &elgamal::PublicKey<G>, x: &Fr, k: &Fr| elgamal::Cipher(g.mul_by_scalar(k), pk.key.mul_by_scalar(k).plus_point(&h.mul_by_scalar(x)));
+    let ca: Vec<_> = (0..2).map(|i| enc(&pk_r, &a[i], &w[1 + i])).collect();
+    let cs: Vec<_> = (0..2).map(|i| enc(&pk_s, &sp[i], &w[3 + i])).collect();
+    // S encrypts a_0 + 2^32 a_1 + s'_0: the upper remaining chunk s'_1 is not part of it
+    let mut total = a[1];
+    total.mul_assign(&G::scalar_from_u64(1 << 32));
+    total.add_assign(&a[0]);
+    total.add_assign(&sp[0]);
+    let big_s = enc(&pk_s, &total, &w[5]);
+    let full = gen_enc_trans_proof_info(&pk_s, &pk_r, &big_s, &ca, &cs, &h);
+    let red = gen_enc_trans_proof_info(&pk_s, &pk_r, &big_s, &ca, &cs[..1], &h);
+    let mk_secret = || EncTransSecret {
+        dlog_secret: Rc::new(sk),
+        encexp1_secrets: (0..2).map(|i| ComEqSecret { r: Randomness::new(a[i]), a: Value::new(w[1 + i]) }).collect(),
+        encexp2_secrets: (0..1).map(|i| ComEqSecret { r: Randomness::new(sp[i]), a: Value::new(w[3 + i]) }).collect(),
+    };
+    type E = EncTrans<G>;
+    let check = |p: &E, proof: &SigmaProof<<E as SigmaProtocol>::Response>| if legacy { verify(&mut RandomOracle::domain("ctx-a"), p, proof) } else { verify(&mut TranscriptProtocolV1::with_domain("ctx-a"), p, proof) };
+    // the reduced statement is true: its honest proof verifies (otherwise the forgery below would be rejected for the wrong reason)
+    let honest = if legacy { prove(&mut RandomOracle::domain("ctx-a"), &red, mk_secret(), &mut rng) } else { prove(&mut TranscriptProtocolV1::with_domain("ctx-a"), &red, mk_secret(), &mut rng) };
+    match honest {
+        Some(pr) if check(&red, &pr) => {}
+        _ => return fail(format!("enc_trans: a valid witness for chunks (2, 1) yields no verifying proof, row {}", row), json!(true), json!(false)),
+    }
+    fn forge<T: TranscriptProtocol>(ro: &mut T, full: &E, red: &E, secret: <E as SigmaProtocol>::SecretData, rng: &mut StdRng) -> Option<Vec<u8>> {
+        let (cm, st) = red.compute_commit_message(rng)?;
+        full.public(ro);
+        ro.append_message("point", &cm);
+        let challenge_bytes = ro.extract_raw_challenge();
+        let ch = full.get_challenge(&challenge_bytes);
+        let resp = red.compute_response(secret, st, &ch)?;
+        let mut b = to_bytes(&challenge_bytes);
+        b.extend_from_slice(&to_bytes(&resp));
+        Some(b)
+    }
+    let bytes = if legacy { forge(&mut RandomOracle::domain("ctx-a"), &full, &red, mk_secret(), &mut rng) } else { forge(&mut TranscriptProtocolV1::with_domain("ctx-a"), &full, &red, mk_secret(), &mut rng) };
+    let bytes = match bytes {
+        Some(b) => b,
+        None => return fail("enc_trans: harness cannot run the prover steps".into(), J::Null, J::Null),
+    };
+    // challenge 32 | common 32 | u32 count, 64 each | u32 count, 64 each  -> one more entry in the first vector: counts (3, 1)
+    let n1 = u32::from_be_bytes([bytes[64], bytes[65], bytes[66], bytes[67]]) as usize;
+    let at2 = 68 + 64 * n1;
+    let mut padded = bytes.clone();
+    padded[64..68].copy_from_slice(&((n1 + 1) as u32).to_be_bytes());
+    let extra = bytes[68..132].to_vec();
+    padded.splice(at2..at2, extra);
+    for (what, b) in [("(2, 1)", &bytes), ("(3, 1)", &padded)] {
+        if let Some(proof) = reparse::<SigmaProof<<E as SigmaProtocol>::Response>>(b) {
+            if check(&full, &proof) {
+                return fail(
+                    format!("enc_trans: a proof with chunk responses {} that never answers the upper remaining-balance chunk verifies for the statement with chunks (2, 2) ({} transcript), row {}", what, if legacy { "legacy" } else { "V1" }, row),
+                    json!(false),
+                    json!(true),
+                );
+            }
+        }
+    }
+    Ok(())
+}
+
 fn run_sigma(row: &J, idx: u64) -> Res {
     if row["perturb"] == "forge_skip_row" {
         return match row["protocol"].as_str().unwrap() {
             "vcom_eq" => forge_vcom_eq(row, idx),
             "replicate_dlog" => forge_replicate(row, idx),
+            "enc_trans" => forge_enc_trans(row, idx),
             _ => Ok(()),
         };
     }
@@ -587,6 +669,69 @@ fn run_sigma(row: &J, idx: u64) -> Res {
                 _ => false,
             },
         ),
+        "com_eq_sig" => {
+            use concordium_base::{
+                id::constants::IpPairing,
+                ps_sig,
+                sigma_protocols::com_eq_sig::{ComEqSig, ComEqSigSecret},
+            };
+            // witness of the model: (rho', mu_1, mu_2, R_1, R_2); the PS key has exactly as many message slots as there are commitments (2); the blinding
+            // randomness is drawn by the library (its constructor is not public), so the class of the first component is not controlled
+            run_case::<ComEqSig<IpPairing, G>>(
+                row,
+                idx,
+                &|w| {
+                    let mut rng = StdRng::seed_from_u64(50_000 + idx);
+                    let sk = ps_sig::SecretKey::<IpPairing>::generate(2, &mut rng);
+                    let pk = ps_sig::PublicKey::from(&sk);
+                    let mask = ps_sig::SigRetrievalRandomness::<IpPairing>::generate_non_zero(&mut rng);
+                    let mut to_signer = pk.g.mul_by_scalar(&mask);
+                    let mut commitments = Vec::new();
+                    let mut secrets = Vec::new();
+                    for i in 0..2 {
+                        let (v, r) = (Value::<G>::new(w[1 + i]), Randomness::<G>::new(w[3 + i]));
+                        to_signer = to_signer.plus_point(&pk.ys[i].mul_by_scalar(&v));
+                        commitments.push(key.hide(&v, &r));
+                        secrets.push((v, r));
+                    }
+                    let sig = sk.sign_unknown_message(&ps_sig::UnknownMessage(to_signer), &mut rng).retrieve(&mask);
+                    let (blinded_sig, blind_rand) = sig.blind(&mut rng);
+                    (ComEqSig { blinded_sig, commitments, ps_pub_key: pk, comm_key: key }, ComEqSigSecret { blind_rand, values_and_rands: secrets })
+                },
+                &|p, f| match f {
+                    "blinded_sig_0" => {
+                        bump(&mut p.blinded_sig.sig.0);
+                        true
+                    }
+                    "blinded_sig_1" => {
+                        bump(&mut p.blinded_sig.sig.1);
+                        true
+                    }
+                    "commitments_0" => {
+                        bump(&mut p.commitments[0].0);
+                        true
+                    }
+                    "commitments_last" => {
+                        bump(&mut p.commitments[1].0);
+                        true
+                    }
+                    "ps_pub_key_y_tilda_last" => {
+                        let n = p.ps_pub_key.y_tildas.len();
+                        p.ps_pub_key.y_tildas[n - 1] = p.ps_pub_key.y_tildas[n - 1].plus_point(&pt2(9));
+                        true
+                    }
+                    "ps_pub_key_x_tilda" => {
+                        p.ps_pub_key.x_tilda = p.ps_pub_key.x_tilda.plus_point(&pt2(9));
+                        true
+                    }
+                    "comm_key_h" => {
+                        bump(&mut p.comm_key.h);
+                        true
+                    }
+                    _ => false,
+                },
+            )
+        }
         "enc_trans" => {
             use concordium_base::{
                 encrypted_transfers::proofs::gen_enc_trans_proof_info,
